@@ -87,7 +87,7 @@ class TlcResult:
 
 
 class Ctx:
-    def __init__(self, pid, tier, seed, level):
+    def __init__(self, pid, tier, seed, level, keep_replays=False):
         self.pid = pid
         self.tier = tier
         self.seed = seed
@@ -105,7 +105,7 @@ class Ctx:
         self.notes = []
         os.makedirs(EVID, exist_ok=True)
         # replay artefacts of earlier runs of this check are stale
-        if os.path.isdir(REPLAYS):
+        if os.path.isdir(REPLAYS) and not keep_replays:
             for f in os.listdir(REPLAYS):
                 if f.startswith(pid + "_"):
                     try:
@@ -200,7 +200,7 @@ class Ctx:
                     except BrokenPipeError:
                         pass
                 if on_line is not None:
-                    on_line(json.loads(line))
+                    on_line(json.loads(json.loads(line)))
                 continue
             line = line.rstrip("\n")
             if keep_lines is not None and keep_lines(line):
@@ -392,7 +392,7 @@ def run_main(pid, level, fn):
     a = ap.parse_args(sys.argv[2:])
     seed = int(os.environ.get("VERIF_SEED", "1") or 1)
     tier = a.tier if a.tier in ("quick", "thorough") else "quick"
-    ctx = Ctx(pid, tier, seed, level)
+    ctx = Ctx(pid, tier, seed, level, keep_replays=bool(a.replay))
     ctx.replay = a.replay
     try:
         fn(ctx)
